@@ -120,6 +120,16 @@ def order_family(perm, default_ns=False, two_files=False):
         f0.imports = [1]
         f0.prefixes[1] = "tw"
         files.append(f1)
+        # a chain into the other namespace whose inherited members start with an attribute: flags (attributes only) <- stamped
+        # (adds an element) in the twin file, <- cross (adds its own element) in the main file
+        flags = ComplexType(N("flags"), Content(None, [Attr(N("active"), TypeRef("boolean"), False), Attr(N("level"), TypeRef("int"), True)]), file=1)
+        stamped = ComplexType(N("stamped"), Content(Group("sequence", 1, 1, [LocalElement(N("stamp"), TypeRef("string"))]), []),
+                              base=TypeRef(flags.name.xml, 1, flags), file=1)
+        # (appended after the permuted components, so that the two files keep the same layout up to there)
+        f1.components += [stamped, flags] if perm[0] % 2 else [flags, stamped]
+        cross = ComplexType(N("cross"), Content(Group("sequence", 1, 1, [LocalElement(N("local"), TypeRef("int"), 0, 1)]), []),
+                            base=TypeRef(stamped.name.xml, 1, stamped), file=0)
+        f0.components.append(cross)
     feats = {"order-family", "extension", "element-ref", "element-named-like-its-type", "attributes", "extension-attributes"}
     if default_ns:
         feats.add("own-namespace-as-default")
